@@ -17,6 +17,7 @@ def allOps : List (String × (V → R V)) :=
   ++ serialOps
   ++ loggingOps
   ++ spaceOps
+  ++ g1Ops
 
 def dispatch (op : String) (a : V) : R V :=
   match allOps.find? (·.1 == op) with
